@@ -44,3 +44,30 @@ Definition cast_isize_usize (c : cfg) (i : Z) : Z := if i <? 0 then i + (umax c 
 (* the accessors of an index value *)
 Definition AsIndex_row (i : Index) : res Z := Val (ix_row i).
 Definition AsIndex_col (i : Index) : res Z := Val (ix_col i).
+
+(* ---------- the pointer-level iterator machines of iter/iter_mut.rs (Model/IterMut.v) ---------- *)
+From Matreex Require Export Model.IterMut.
+Notation GNonNull := Z (only parsing).          (* a pointer value is its address *)
+Notation GRefMut := Z (only parsing).           (* a reference handed out is the address it points to *)
+Notation GIterNthVectorMut := IterNth (only parsing).
+Notation GLayout := Layout (only parsing).
+Notation GIterVectorsMut := IterVecs (only parsing).
+Definition GNonNull_eqb := Z.eqb.
+Definition f_IterNthVectorMut_lower := n_lower.
+Definition f_IterNthVectorMut_upper := n_upper.
+Definition f_IterNthVectorMut_stride := n_stride.
+Definition Build_IterNthVectorMut := mkNth.
+Definition set_IterNthVectorMut_lower (s : IterNth) (v : Z) := mkNth v (n_upper s) (n_stride s).
+Definition set_IterNthVectorMut_upper (s : IterNth) (v : Z) := mkNth (n_lower s) v (n_stride s).
+Definition set_IterNthVectorMut_stride (s : IterNth) (v : option Z) := mkNth (n_lower s) (n_upper s) v.
+Definition f_Layout_axis_stride := axis_stride.
+Definition f_Layout_vector_stride := vector_stride.
+Definition f_Layout_vector_length := vector_length.
+Definition Build_Layout := mkLayout.
+Definition f_IterVectorsMut_lower := v_lower.
+Definition f_IterVectorsMut_upper := v_upper.
+Definition f_IterVectorsMut_layout := v_layout.
+Definition Build_IterVectorsMut := mkVecs.
+Definition set_IterVectorsMut_lower (s : IterVecs) (v : Z) := mkVecs v (v_upper s) (v_layout s).
+Definition set_IterVectorsMut_upper (s : IterVecs) (v : Z) := mkVecs (v_lower s) v (v_layout s).
+Definition set_IterVectorsMut_layout (s : IterVecs) (v : option Layout) := mkVecs (v_lower s) (v_upper s) v.
